@@ -227,12 +227,40 @@ fn check(rel: Rel, exact: bool) -> impl Fn(&Case) -> Verdict + Send + Sync {
     }
 }
 
+/// ultra-long runs (past 2^16 and 2^17 updates) of the f64 scale relation (a = 2^k, bit-exact): ints = [entry, k, seed, len, shape]
+fn ultra_cases(tier: Tier) -> Vec<Case> {
+    let len = tier.pick(135_000usize, 1_100_000usize);
+    let mut out = vec![];
+    for (i, en) in TABLE.iter().enumerate() {
+        if !applies(en, Rel::Scale) {
+            continue;
+        }
+        let n = en.min_n.max(5);
+        out.push(Case { spec: Some((en.mk)(n)), a: Rat(1, 1), b: Rat(0, 1), ints: vec![i as i64, [-61, 37, -7][i % 3], 0xC12_0000 + 19 * i as i64, len as i64, (i % 4) as i64], ..Default::default() });
+    }
+    out
+}
+fn ultra_check(case: &Case) -> Verdict {
+    let en = TABLE[case.ints[0] as usize];
+    let (seed, len, shape) = (case.ints[2] as u64, case.ints[3] as usize, case.ints[4]);
+    let ks: Vec<i64> = gen::ultra_stream(seed, len, shape).into_iter().map(|k| if en.positive { k.abs().max(1) } else { k }).collect();
+    let full = Case { xs: gen::to_rats(&ks, Rat(1, 8)), ints: case.ints[..2].to_vec(), ..case.clone() };
+    match check(Rel::Scale, false)(&full) {
+        Verdict::Fail { sig, msg } => {
+            let cut = msg.find("; x = ").unwrap_or(msg.len());
+            Verdict::Fail { sig: sig.replace("C12/scale/", "C12/ultra_scale/"), msg: format!("{} (x = ultra_stream(seed {seed}, len {len}, shape {shape}){}, grid 1/8)", &msg[..cut], if en.positive { " made positive" } else { "" }) }
+        }
+        v => v,
+    }
+}
+
 pub fn clauses() -> Vec<Clause> {
     let g = "view drawn from the statement's list for the relation, N in 1..20 (thorough ..64) from the view's minimum, grammar stream of 0..3N+20 values on a dyadic grid (ties, zeros, flats, sign changes; positive for LnReturn / Drawdown).";
     vec![
         Clause::generated("C12", "C12/affine/Q", format!("{g} x vs a x + b with a = p/q (1..48 each) and b = r 2^(10e)/8 (|r| <= 64, e in 0..3: offsets up to 2^30 times the grid move everything across 0). HLNormalizer, Vsct, CTI, NET, EFT unchanged, exactly in Q (2^-150 where a root is involved); identical readiness. Non-trivial: (a,b) != (1,0), >= 3 steps compared, >= 2 distinct outputs."), 6000, 150_000, strategy(Rel::Affine, true), check(Rel::Affine, true)).with_shard(150),
         Clause::generated("C12", "C12/scale/Q", format!("{g} x vs a x, a = p/q. Rsi, MyRSI, LaguerreRSI, Vst (flat windows exempt: it returns x_t there by C02's convention), Roc, CoG, BinaryEntropy, TrendFlex, ReFlex, LnReturn, Drawdown, and the list-(i) views unchanged; Min, Max, Sma, Ema, Alma, Cumulative, WelfordOnline, WelfordRolling, LaguerreFilter, SuperSmoother, RoofingFilter, CyberCycle scale by a. Exact in Q."), 8000, 200_000, strategy(Rel::Scale, true), check(Rel::Scale, true)).with_shard(100),
         Clause::generated("C12", "C12/scale/f64", format!("{g} a = 2^k, k in -30..30 (3 in 5) or -200..200 (2 in 5; units far below f64 epsilon and far above 2^53): the same relations must hold bit for bit in f64 (scaling by a power of two commutes with every IEEE operation absent over/underflow)."), 20_000, 500_000, strategy(Rel::Scale, false), check(Rel::Scale, false)).with_shard(1000),
+        Clause::enumerated("C12", "C12/ultra_scale/f64", "Enumerated: every view of the scale relation at N = max(minimum, 5), 135 000 values (thorough 1.1e6; past 2^16 and 2^17 updates) on the 1/8 grid, x vs 2^k x with k in {-61, 37, -7}: unchanged / scaled bit for bit in f64 at every step (Vst's flat windows exempt).", ultra_cases, ultra_check).with_shard(2),
         Clause::generated("C12", "C12/negation/Q", format!("{g} x vs -x: HLNormalizer, Vsct, Vst, MyRSI, CTI, NET, TrendFlex, ReFlex negate; Rsi -> 100 - Rsi on non-flat windows; Min(-x) = -Max(x). Exact in Q."), 6000, 150_000, strategy(Rel::Negation, true), check(Rel::Negation, true)).with_shard(150),
         Clause::generated("C12", "C12/negation/f64", format!("{g} the same relations in f64 up to 1e-9 (1 + |value|)."), 12_000, 300_000, strategy(Rel::Negation, false), check(Rel::Negation, false)).with_shard(1000),
     ]
